@@ -457,6 +457,23 @@ def main():
         v.append("(* libmcount/wrap.c:dlopen - is the clock (mcount_gettime) read before real_dlopen() is called? *)")
         v.append("Definition wrap_dlopen_clock_first : bool := %s.\n"
                  % ("true" if call_order(fn, "mcount_gettime", "real_dlopen") else "false"))
+        fn = ast_of("libmcount/wrap.c", "dlopen_base_callback")
+        has_filter = [0]
+
+        def walk_calls(n):
+            if n.get("kind") == "CallExpr" and n.get("inner"):
+                c = n["inner"][0]
+                while c.get("kind") in ("ImplicitCastExpr", "ParenExpr") and c.get("inner"):
+                    c = c["inner"][0]
+                if c.get("referencedDecl", {}).get("name") in ("strstr", "strcmp", "strncmp", "strcasestr") and \
+                        "filename" in json.dumps(n):
+                    has_filter[0] += 1
+            for c in n.get("inner", []) or []:
+                if isinstance(c, dict):
+                    walk_calls(c)
+        walk_calls(fn)
+        v.append("(* libmcount/wrap.c:dlopen_base_callback - no comparison of the library name with the dlopen() argument? *)")
+        v.append("Definition wrap_dlopen_reports_all : bool := %s.\n" % ("false" if has_filter[0] else "true"))
         v.append("(* constants (probe compiled against /repo's headers) *)")
         v += probe_consts()
     except Unsupported as e:
